@@ -36,6 +36,10 @@ for _tr in ("rsync", "bbcp", "hardlink", "internal"):
     for _row, _disk in ((None, None), (("X", "Y"), "bad"), (("N", "N"), None)):
         CORE.append(({"src_has": "Y", "src_disk": "good", "dst_row": _row, "dst_disk": _disk, "ph": False, "tmp": False, "req": "pending"},
                      {"src_active": True, "dst_usable": True, "gate_ok": True, "transport": _tr, "del_ok": True}, "ok"))
+# a transfer onto a removed-and-released row where the deletion-safety rule would not allow a deletion
+for _tr in ("rsync", "hardlink"):
+    CORE.append(({"src_has": "Y", "src_disk": "good", "dst_row": ("N", "N"), "dst_disk": None, "ph": False, "tmp": False, "req": "pending"},
+                 {"src_active": True, "dst_usable": True, "gate_ok": True, "transport": _tr, "del_ok": False}, "ok"))
 for _m in ("fail", "mkstemp", "die_tmp", "die_partial"):
     CORE.append(({"src_has": "Y", "src_disk": "good", "dst_row": None, "dst_disk": None, "ph": False, "tmp": False, "req": "pending"},
                  {"src_active": True, "dst_usable": True, "gate_ok": True, "transport": "rsync", "del_ok": False}, _m))
